@@ -1,5 +1,5 @@
 (* Props/C10.v -- property theorems for C10 only. *)
-From LV Require Import Base FS FSFacts LayerEnv LayerEnvFacts LayerShared LayerEnvFS LayerEnvFSFacts Determinism FSInv LayerEnvFSExact LayerEnvFSCompose LayerEnvReadback LayerEnvFSRead LayerEnvFSCycle.
+From LV Require Import Base FS FSFacts LayerEnv LayerEnvFacts LayerShared LayerEnvFS LayerEnvFSFacts Determinism FSInv LayerEnvFSExact LayerEnvFSCompose LayerEnvReadback LayerEnvFSRead LayerEnvFSCycle LayerEnvFSProc LayerEnvFSFull.
 From LVGen Require Import GenLayerEnv.
 
 Theorem c10_tables :
@@ -95,6 +95,26 @@ Theorem c10_cycles :
 Proof. exact (cycles_fixpoint writer_suffix reader_suffix reader_no_ext layer_path_specs path_list_separator reads_process spec_tables_inverse). Qed.
 Print Assumptions c10_cycles.
 
-(* PARTIAL: environments with per-process entries (directories below env.launch) are outside
-   env_ok; for them the fixpoint is decided on implementation snapshots by Checks/C03Hold.v and by
-   the correspondence. *)
+(* the same for EVERY environment, per-process entries included (the per-process directories are
+   read back through the reader repaired by the fix: commit d787e51, reads_process = true) *)
+Theorem c10_rw_fixpoint_full :
+  forall e dir s,
+    fs_inv s dir -> env_ok_full writer_suffix e -> layer_written_full writer_suffix e dir s ->
+    exists e' s',
+      read_from_layer_dir reader_suffix reader_no_ext layer_path_specs path_list_separator reads_process dir s = (s, Ok e') /\
+      write_to_layer_dir beh_order writer_suffix e' dir s = (s', Ok tt) /\
+      (forall q, pget q s' = pget q s) /\ fs_inv s' dir /\ layer_written_full writer_suffix e dir s'.
+Proof. exact (read_write_fixpoint_full writer_suffix reader_suffix reader_no_ext layer_path_specs path_list_separator reads_process spec_tables_inverse eq_refl). Qed.
+Print Assumptions c10_rw_fixpoint_full.
+
+Theorem c10_cycles_full :
+  forall n e dir s,
+    fs_inv s dir -> env_ok_full writer_suffix e -> layer_written_full writer_suffix e dir s ->
+    exists s', cycles writer_suffix reader_suffix reader_no_ext layer_path_specs path_list_separator reads_process n dir s = (s', Ok tt) /\
+               forall q, pget q s' = pget q s.
+Proof. exact (cycles_fixpoint_full writer_suffix reader_suffix reader_no_ext layer_path_specs path_list_separator reads_process spec_tables_inverse eq_refl). Qed.
+Print Assumptions c10_cycles_full.
+
+(* Outside the theorems (decided on implementation snapshots by Checks/C03Hold.v and by the
+   correspondence): env directories that are NOT what the writer leaves (hand-made directories with
+   unknown suffixes, symlinks, sub-directories of env/ or env.build/). *)
